@@ -134,6 +134,8 @@ var verifC11Embeddings = []verifEmbedding{
 	{"(", " || 'a') && 'b'", false}, {"!(", " || 'a') || 'b'", false}, {"", " && 'a' || 'b'", false}, {"'a' && (", " || 'b')", false},
 	{"contains(", ", 'a')", true}, {"startsWith(", ", 'a')", true}, {"endsWith('a', ", ")", true},
 	{"contains(toJSON(", "), 'a')", true}, {"format('{0}', contains(", ", 'a'))", true},
+	// function names are case-insensitive: sanitising and non-sanitising calls in other spellings
+	{"CONTAINS(", ", 'a')", true}, {"startswith(", ", 'a')", true}, {"EndsWith('a', ", ")", true}, {"TOJSON(", ")", false}, {"Format('{0}', ", ")", false},
 }
 
 func verifUntrustedReports(src string, untrusted bool) (int, string, bool) {
@@ -253,13 +255,21 @@ func HarnessC11Routing() {
 	expr := "${{ github.event.issue.title }}"
 	if k == len(sites.scalars) {
 		// github-script
-		d := verifParseYAML("on: push\njobs:\n  j:\n    runs-on: ubuntu-latest\n    steps:\n      - uses: actions/github-script@v7\n        with:\n          script: console.log('" + expr + "')\n          other: " + expr + "\n")
+		// the step's keys in either order, the script input in three spellings
+		key := []string{"script", "Script", "SCRIPT"}[verifChoose("scriptkey", 3)]
+		src := "on: push\njobs:\n  j:\n    runs-on: ubuntu-latest\n    steps:\n      - uses: actions/github-script@v7\n        with:\n          " + key + ": console.log('" + expr + "')\n          other: " + expr + "\n"
+		line := 8
+		if verifChoose("withfirst", 2) == 1 {
+			src = "on: push\njobs:\n  j:\n    runs-on: ubuntu-latest\n    steps:\n      - with:\n          " + key + ": console.log('" + expr + "')\n          other: " + expr + "\n        uses: actions/github-script@v7\n"
+			line = 7
+		}
+		d := verifParseYAML(src)
 		errs := verifLintNode(d, verifRules())
 		n := 0
 		for _, e := range errs {
 			if strings.Contains(e.Message, "potentially untrusted") {
 				n++
-				verifCheck(e.Line == 8, "github-script-report-not-at-script-input")
+				verifCheck(e.Line == line, "github-script-report-not-at-script-input")
 			}
 		}
 		verifReach("github-script")
@@ -359,4 +369,37 @@ func HarnessC11StarLiteral() {
 	verifCheckf(ok, "generated-expression-does-not-parse", src)
 	verifReach("compared")
 	verifCheckf(n == 0, "number-of-untrusted-reports-differs", src)
+}
+
+// HarnessC11Tail: a documented untrusted path in every spelling with one
+// extra `[0]` inserted after any of its segments: after a `.*` filter the
+// index selects an element of the filtered array and the value is still the
+// untrusted one (commits.*.message[0], commits.*.author[0].name); elsewhere
+// the chain no longer denotes a documented path.
+func HarnessC11Tail() {
+	x, chain := verifUntrustedSpelling("u")
+	_ = x
+	q := 1 + verifChoose("insert", 6)
+	if q > len(chain) {
+		verifReach("compared")
+		return
+	}
+	nc := append(append(append([]verifSeg{}, chain[:q]...), verifSeg{segIndex, ""}), chain[q:]...)
+	src := "github"
+	for _, s := range nc {
+		src += verifSegText(s)
+	}
+	n, msg, ok := verifUntrustedReports(src, true)
+	verifCheck(ok, "generated-expression-does-not-parse")
+	want := verifExpectedPaths(nc)
+	verifReach("compared")
+	if len(want) > 0 {
+		verifReach("filtered-then-indexed")
+		verifCheckf(n == 1, "untrusted-input-not-reported-exactly-once", src)
+		for _, p := range want {
+			verifCheckf(strings.Contains(msg, "\""+p+"\""), "report-does-not-name-the-path", src+" -> "+p)
+		}
+	} else {
+		verifCheckf(n == 0, "trusted-expression-reported", src)
+	}
 }
